@@ -148,6 +148,13 @@ class Result:
 # ----------------------------------------------------------------------------- E1 workers
 
 _FAMS = None
+_PROP = '?'
+
+
+def construction_viol(prop, famname, scene, cf):
+    return Viol('%s|%s|operand-construction|%s|raises:%s' % (prop, famname.split('/')[0], cf.kind, cf.cls), scene,
+                'a valid %s is constructible' % cf.kind, str(cf)[:300],
+                'public constructor raised on a valid operand: %s' % str(cf)[:200])
 
 
 def _on_alarm(signum, frame):
@@ -172,8 +179,10 @@ def _run_shard(job):
         try:
             cell, vs = fam.eval(scene)
         except lib.LibTimeout:
-            cell, vs = 'timeout', [Viol('%s|timeout' % fam.name, fam.enc_scene(scene), None, 'timeout',
+            cell, vs = 'timeout', [Viol('%s|%s|timeout' % (_PROP, fam.name.split('/')[0]), fam.enc_scene(scene), None, 'timeout',
                                         'library call did not return within %gs' % fam.scene_timeout)]
+        except lib.ConstructionFailed as cf:
+            cell, vs = 'operand-construction-failed', [construction_viol(_PROP, fam.name, fam.enc_scene(scene), cf)]
         finally:
             signal.setitimer(signal.ITIMER_REAL, 0)
         if cell.startswith('skip:'):
@@ -197,8 +206,9 @@ def _run_shard(job):
 
 def run_families(prop, families, seed=0, nproc=None):
     """Exhaustively evaluate every scene of every family; returns a Result."""
-    global _FAMS
+    global _FAMS, _PROP
     _FAMS = families
+    _PROP = prop
     nproc = nproc or NPROC
     jobs = []
     for fi, fam in enumerate(families):
